@@ -1,11 +1,11 @@
 (* Statement pins for C06: each property theorem is re-checked against the statement recorded here. *)
 From BT Require Import Base.Util Base.Float.
-From BT Require Model.RTree Model.BBIFile Model.BigWigWrite Model.BedSweep Spec.Depth Proofs.DepthStats Proofs.SweepRLE
-  Proofs.BedSummary Proofs.BwSummary Proofs.BwCollect Properties.C06.
+From BT Require Model.EntryBedSweep Proofs.BedFile Model.RTree Model.BBIFile Model.BigWigWrite Model.BedSweep Spec.Depth Proofs.DepthStats Proofs.SweepRLE
+  Proofs.BedSummary Proofs.BedIeee Proofs.BwSummary Proofs.BwCollect Properties.C06.
 
 Module PinC06.
-Import Model.RTree Model.BBIFile Model.BigWigWrite Model.BedSweep Spec.Depth Proofs.DepthStats Proofs.SweepRLE
-  Proofs.BedSummary Proofs.BwSummary Proofs.BwCollect Properties.C06.
+Import Model.EntryBedSweep Proofs.BedFile Model.RTree Model.BBIFile Model.BigWigWrite Model.BedSweep Spec.Depth Proofs.DepthStats Proofs.SweepRLE
+  Proofs.BedSummary Proofs.BedIeee Proofs.BwSummary Proofs.BwCollect Properties.C06.
 Local Open Scope N_scope.
 Check (C06_bw_summary : forall E o sizes input ids outs sum data,
   (E <= 0)%Z -> Forall (fun it => vfin E (snd it)) input ->
@@ -35,6 +35,16 @@ Check (C06_bb_summary : forall U c chroms,
 Check (C06_bb_item_count : forall U c chroms,
   Forall (valid_chrom U) (c :: chroms) ->
   su_items (bb_total_summary exact (c :: chroms)) = sumN (map (fun es => Nlen es) (c :: chroms))).
+Check (C06_bb_file_summary : forall U two_pass o sizes input sum levels cs,
+  U <= U32_MAX -> Forall (fun it => e_end (snd it) <= U) input ->
+  bb_file exact two_pass o sizes input = Ok (sum, levels, cs) ->
+  let chroms := map bc_es cs in
+  concat chroms = map snd input /\ chroms <> [] /\ Forall (valid_chrom U) chroms /\
+  sum = bb_total_summary exact chroms /\ su_items sum = Nlen input).
+Check (C06_bb_summary_ieee : forall U c chroms,
+  Forall (valid_chrom U) (c :: chroms) -> sumN (map (c_sumsq U) (c :: chroms)) < P53 ->
+  bb_total_summary ieee (c :: chroms) = bb_total_summary exact (c :: chroms)).
+Check (eq_refl : P53 = 2 ^ 53).
 (* the definitions the statements rest on, pinned as well *)
 Check (eq_refl : sform = fun s items b su q mn mx =>
   su_items s = items /\ su_bases s = b /\ su_sum s = f_of_N su /\ su_sumsq s = f_of_N q /\
